@@ -315,15 +315,16 @@ pub fn show_run(b: &Built, toks: &[(Tok, bool)], o: &Opts, r: &RunOut) -> String
         r.tree
             .iter()
             .map(|e| match e {
-                TreeEv::Open(n) if n.is_empty() => "(r".to_string(),
+                TreeEv::Open(n) if n.is_empty() => "or".to_string(),
                 TreeEv::Open(n) => format!(
-                    "({}",
+                    "o{}",
                     b.nt_names.iter().position(|x| x == n).map(|i| i.to_string()).unwrap_or("?".into())
                 ),
-                TreeEv::Close => ")".to_string(),
-                TreeEv::Tok(t) => format!("{}.", id_of(t)),
+                TreeEv::Close => "c".to_string(),
+                TreeEv::Tok(t) => id_of(t),
             })
-            .collect::<String>()
+            .collect::<Vec<_>>()
+            .join(",")
     };
     let comments = if r.comments.is_empty() {
         "-".to_string()
